@@ -86,6 +86,80 @@ def mutants_of_function(module, fn):
             add("move-newaxis", n, "None moved by one position", swap)
         if isinstance(n, ast.IfExp) and isinstance(n.orelse, ast.Constant) and n.orelse.value is None and isinstance(n.test, ast.Name):
             add("ignore-flag", n, norm_text(n.body), lambda m: "REPLACE_WITH_BODY")
+        # ---- operators distilled from the classes of seeded changes of rounds 2 and 3 (DESIGN §9)
+        if isinstance(n, ast.Call):
+            f = n.func
+            fname = f.attr if isinstance(f, ast.Attribute) else (f.id if isinstance(f, ast.Name) else "")
+            def rename(new):
+                return lambda m: setattr(m.func, "attr" if isinstance(m.func, ast.Attribute) else "id", new)
+            if fname in ("all", "any") and isinstance(f, ast.Attribute):
+                add("all↔any", n, "any" if fname == "all" else "all", rename("any" if fname == "all" else "all"))
+                if n.args and isinstance(n.args[0], ast.Compare) and len(n.args[0].ops) == 1 and isinstance(n.args[0].ops[0], (ast.Eq, ast.NotEq)):
+                    def flip(m):
+                        c = m.args[0]
+                        c.ops[0] = ast.NotEq() if isinstance(c.ops[0], ast.Eq) else ast.Eq()
+                    add("==↔!= in mask", n, "comparison negated", flip)
+            if fname == "array_equal":
+                add("array_equal→allclose", n, "np.allclose(...)", rename("allclose"))
+            if fname in ("around", "round", "rint") and isinstance(f, ast.Attribute):
+                add("nearest→floor", n, "np.floor(...)", rename("floor"))
+            if fname == "int" and n.args and isinstance(n.args[0], ast.Call) and isinstance(n.args[0].func, ast.Attribute) \
+                    and n.args[0].func.attr in ("around", "round", "rint") and n.args[0].args:
+                add("int(round(x))→int(x)", n, "int(x)", lambda m: m.args.__setitem__(0, m.args[0].args[0]))
+            if fname == "tile":
+                add("tile→repeat", n, "np.repeat(...)", rename("repeat"))
+            if fname == "concatenate" and n.args and isinstance(n.args[0], ast.BinOp) and isinstance(n.args[0].op, ast.Mult) \
+                    and isinstance(n.args[0].left, ast.List) and len(n.args[0].left.elts) == 1:
+                def to_repeat(m):
+                    x, k = m.args[0].left.elts[0], m.args[0].right
+                    m.func.attr = "repeat"
+                    m.args[:] = [x, k]
+                add("concatenate([x]*n)→repeat(x, n)", n, "np.repeat(x, n)", to_repeat)
+            if fname == "standard_normal":
+                add("normal→uniform", n, "uniform(...)", rename("uniform"))
+            if fname == "sort" and isinstance(f, ast.Attribute) and isinstance(f.value, ast.Name) and f.value.id == "np" and n.args:
+                add("drop-sort", n, norm_text(n.args[0]), lambda m: ("NODE", m.args[0]))
+            if fname in ("l1norm", "l2norm"):
+                add("l1norm↔l2norm", n, "l2norm" if fname == "l1norm" else "l1norm", rename("l2norm" if fname == "l1norm" else "l1norm"))
+            for k, kw in enumerate(n.keywords):
+                if kw.arg == "ord" and isinstance(kw.value, ast.Constant) and kw.value.value in (1, 2):
+                    add("ord 1↔2", n, f"ord={3 - kw.value.value}", lambda m, k=k: setattr(m.keywords[k], "value", ast.Constant(value=3 - m.keywords[k].value.value)))
+                if kw.arg == "axis" and isinstance(kw.value, (ast.Constant, ast.UnaryOp)):
+                    try:
+                        v = ast.literal_eval(kw.value)
+                    except Exception:
+                        v = None
+                    if v in (0, -1, 1):
+                        nv = {0: -1, -1: 0, 1: 0}[v]
+                        add("axis flipped", n, f"axis={nv}", lambda m, k=k, nv=nv: setattr(m.keywords[k], "value", ast.Constant(value=nv)))
+            # two keyword arguments of one family with swapped values (delta_norm1/delta_radius, lb/ub, lbp/ubp, l2_eps/l1_eps)
+            names = [kw.arg for kw in n.keywords]
+            for a_, b_ in (("delta_norm1", "delta_radius"), ("lb", "ub"), ("lbp", "ubp"), ("l2_eps", "l1_eps"), ("xtol", "ftol")):
+                if a_ in names and b_ in names:
+                    ia, ib = names.index(a_), names.index(b_)
+                    def swapkw(m, ia=ia, ib=ib):
+                        m.keywords[ia].value, m.keywords[ib].value = m.keywords[ib].value, m.keywords[ia].value
+                    add("keyword values swapped", n, f"{a_}=<{b_}>, {b_}=<{a_}>", swapkw)
+        if isinstance(n, ast.Assign) and len(n.targets) == 1 and isinstance(n.targets[0], ast.Name) and isinstance(n.value, ast.BinOp) \
+                and isinstance(n.value.op, (ast.Sub, ast.Mult, ast.Add)) and isinstance(n.value.left, ast.Name) \
+                and n.value.left.id == n.targets[0].id and n.targets[0].id in fn.params:
+            add("x = x ∘ y → x ∘= y (in place)", n, f"{n.targets[0].id} {type(n.value.op).__name__}= …",
+                lambda m: ("NODE", ast.copy_location(ast.AugAssign(target=ast.Name(id=m.targets[0].id, ctx=ast.Store()), op=m.value.op,
+                                                                    value=m.value.right), m)))
+        if isinstance(n, ast.Subscript) and isinstance(n.ctx, ast.Load) and isinstance(n.slice, ast.Slice) and n.slice.lower is None \
+                and n.slice.upper is not None and n.slice.step is None and isinstance(n.slice.upper, ast.Name):
+            add("x[:k] → x[-k:]", n, f"[-{n.slice.upper.id}:]",
+                lambda m: setattr(m, "slice", ast.Slice(lower=ast.UnaryOp(op=ast.USub(), operand=m.slice.upper), upper=None, step=None)))
+        if isinstance(n, ast.Attribute) and isinstance(n.value, ast.Name) and n.value.id == "self" and isinstance(n.ctx, ast.Load) \
+                and n.attr in ("W", "w"):
+            add("self.W ↔ self.w", n, "self." + n.attr.swapcase(), lambda m: setattr(m, "attr", m.attr.swapcase()))
+        if isinstance(n, ast.Compare) and len(n.ops) == 1 and isinstance(n.ops[0], (ast.Is, ast.IsNot)) \
+                and isinstance(n.comparators[0], ast.Constant) and n.comparators[0].value is None and isinstance(n.left, ast.Name) \
+                and n.left.id in ("seed", "axes", "axis", "n", "eps", "batch_size"):
+            if isinstance(n.ops[0], ast.Is):
+                add("`x is None` → `not x`", n, f"not {n.left.id}", lambda m: ("NODE", ast.copy_location(ast.UnaryOp(op=ast.Not(), operand=m.left), m)))
+            else:
+                add("`x is not None` → `x`", n, n.left.id, lambda m: ("NODE", m.left))
     return out
 
 
@@ -113,6 +187,8 @@ class _Replacer(ast.NodeTransformer):
                 return ast.copy_location(ast.Constant(value=None), node)
             if r == "REPLACE_STMT_WITH_PASS":
                 return ast.copy_location(ast.Pass(), node)
+            if isinstance(r, tuple) and r and r[0] == "NODE":
+                return r[1]
             return node
         return self.generic_visit(node)
 
